@@ -33,4 +33,7 @@ PROPS = {
           rule="cases from tools/gen_cases.py profile C18; distinct = distinct (curve factory, routine multiset) signatures"),
  "C19": P("C19", ["Properties_C19.v"], 150, 1500, [], skip_labels=("luaload",), twin_tol=0.0, oracle_skip=("G", "gamma", "errd", "err"),
           rule="cases from tools/gen_cases.py profile C19: each case builds one mechanism through the API and from a generated Lua file"),
+ "C20": P("C20", ["Properties_C20.v"], 120, 1000, [], twin_tol=0.0, extra="threads",
+          oracle_skip=("G", "gamma", "errd", "err", "fdc_motion", "fdc_constraint_acc"),
+          rule="cases from tools/gen_cases.py profile C20: 2-3 independent instances used interleaved and alone; plus thread-sanitizer stress runs"),
 }
